@@ -958,6 +958,15 @@ def execute(case):
             stats["assemble:" + kind] += 1
             cit = _has_citations(cat, recs) or any(kept_cit.get(r) for r in recs)
             malformed = _has_malformed(cat, recs)
+            # Two inputs of ONE call that share their citation list objects (a record and the record
+            # derived from it with `>>`) are outside C10's input space (section 3.3: citation lists
+            # are not aliased between the features of one call); such a call is judged for purity
+            # and refinement only.  (It can only get past DuplicateModules when one of the two has
+            # its origin inside an overhang, where moclo's group extraction returns the two halves in
+            # the wrong order - an observation about C02/C16, which are not claimed here.)
+            if any((rd_.get("derive") or {}).get("from") in recs for rd_ in cat["pool"] if rd_["id"] in recs):
+                malformed = True
+                probes["call-with-a-record-and-its-rotation"] += 1
             overrides = {}
             for r in recs:
                 if r in kept_src:
